@@ -37,7 +37,7 @@ def runOpSrc : Op → M Out
   | .clear => do Gen.clear; pure .unit
   | .makeContiguous => do let _ ← Gen.make_contiguous; pure .unit
 
-theorem runOpSrc_eq (op : Op) (s : Sys) (h : Inv s.buf) (hd : s.faults.drop = 0) :
+maybe theorem runOpSrc_eq (op : Op) (s : Sys) (h : Inv s.buf) (hd : s.faults.drop = 0) :
     runOpSrc op s = runOp op s := by
   cases op <;>
     simp only [runOpSrc, runOp, bind_run, attempt, tie_push_back _ s h (nd_pushBack _ s h),
@@ -56,7 +56,7 @@ def runOpsSrc : List Op → Sys → List Out × Sys
     | (.ok o, s') => let (os, s'') := runOpsSrc rest s'; (o :: os, s'')
     | (.error _, s') => ([], s')
 
-theorem runOpsSrc_eq (cap : Nat) (ops : List Op) (s : Sys) (g : Good cap s) :
+maybe theorem runOpsSrc_eq (cap : Nat) (ops : List Op) (s : Sys) (g : Good cap s) :
     runOpsSrc ops s = runOps ops s := by
   induction ops generalizing s with
   | nil => rfl
@@ -64,14 +64,14 @@ theorem runOpsSrc_eq (cap : Nat) (ops : List Op) (s : Sys) (g : Good cap s) :
     obtain ⟨s', e, g', _, _, _⟩ := step_refines cap s op g
     simp only [runOpsSrc, runOps, runOpSrc_eq op s g.inv g.nodrop, e, ih s' g']
 
-/-- **every finite history of the translated code** produces the outputs and the final contents of
+maybe /-- **every finite history of the translated code** produces the outputs and the final contents of
 the same history on the abstract deque, and ends in a state satisfying the invariant -/
 theorem C01_history_src (cap : Nat) (ops : List Op) (s : Sys) (g : Good cap s) :
     (runOpsSrc ops s).1 = (Spec.runOps cap ops (abs s.buf)).1 ∧
     abs (runOpsSrc ops s).2.buf = (Spec.runOps cap ops (abs s.buf)).2 ∧ Good cap (runOpsSrc ops s).2 := by
   rw [runOpsSrc_eq cap ops s g]; exact C01_history cap ops s g
 
-/-- … and its ledger is exactly the destructions of the abstract steps (C03 along histories) -/
+maybe /-- … and its ledger is exactly the destructions of the abstract steps (C03 along histories) -/
 theorem C03_history_ledger_src (cap : Nat) (ops : List Op) (s : Sys) (g : Good cap s) :
     (runOpsSrc ops s).2.log = Spec.histDrops s.kind cap ops (abs s.buf) ++ s.log := by
   rw [runOpsSrc_eq cap ops s g]; exact C03_history_ledger cap ops s g
